@@ -8,6 +8,7 @@
 package strings
 
 import (
+	"math"
 	"strconv"
 	"strings"
 	"unicode/utf8"
@@ -573,6 +574,10 @@ func pad(c ugo.Call, left bool) (ugo.Object, error) {
 	if diff <= 0 {
 		return ugo.String(s), nil
 	}
+	if padLen > math.MaxInt32 {
+		return ugo.Undefined,
+			ugo.NewArgumentTypeError("2nd", "int up to "+strconv.Itoa(math.MaxInt32), "too large int")
+	}
 	padWith := " "
 	if size > 2 {
 		if padWith = c.Get(2).String(); len(padWith) == 0 {
@@ -599,6 +604,9 @@ func repeatFunc(s string, count int) ugo.Object {
 	// if n is negative strings.Repeat function panics
 	if count < 0 {
 		return ugo.String("")
+	}
+	if count > 0 && len(s) > math.MaxInt32/count {
+		return ugo.NewArgumentTypeError("2nd", "int giving a result of at most "+strconv.Itoa(math.MaxInt32)+" bytes", "too large int")
 	}
 	return ugo.String(strings.Repeat(s, count))
 }
